@@ -320,6 +320,10 @@ def run(args) -> int:
             tv = text_violation(case, rec, k)
             if m == r and derived_ok and tv is None:
                 continue
+            if tv is None and not confirmed(case):
+                # not reproducible in a fresh process (search order): counted, not reported
+                chk.count('unconfirmed_divergence', case['logic'])
+                break
             ndiv += 1
             if tv is not None:
                 chk.violation(tv[0], f'{case["logic"]} {case["arg"]} opts {case["opts"]}: call #{k} {case["ops"][k]}: {tv[1]}',
@@ -349,6 +353,20 @@ def run(args) -> int:
         "t = Tableau('CPL'); t.build(); t.argument = 'a:a' is accepted on the finished tableau, builds a trunk and reports "
         "invalid=True with an empty history (C17_finished_locked_refuted)"]
     return chk.finish()
+
+
+def confirmed(case) -> bool:
+    """Re-execute one case alone in a fresh process; does it still disagree with the model?"""
+    c = {k: v for k, v in case.items() if k != 'family'}
+    rec = probe_json('probe_lifecycle.py', stdin=json.dumps(dict(cases=[c])))['cases'][0]
+    if rec['measure_error'] or len(rec['trace']) != len(case['ops']):
+        return True
+    ops = '; '.join(model_op(op, tr) for op, tr in zip(case['ops'], rec['trace']))
+    ans = coq_eval_cases('C17', HEADER, [f'otrace {coq_cfg(rec["n"], rec["closes"], rec["nrules"], case["opts"])} [{ops}]'],
+                         name='Confirm')[0]
+    model = [canon_model(t) for t in parse_coq(ans)]
+    impl = [canon_impl(tr) for tr in rec['trace']]
+    return model != impl
 
 
 def replay_dict(case, rec, k, model_row):
